@@ -22,12 +22,18 @@ pub mod c18;
 pub mod c19;
 pub mod c20;
 pub mod net;
+pub mod sanit;
 pub mod smoke;
 pub mod srv;
 
 pub fn run(a: &Args) -> Report {
     match a.prop.as_str() {
         "smoke" => smoke::run(a),
+        "noop" => Report::new("noop"),
+        "corpus-dump" => corpus_dump(a),
+        "sanit-inproc" => sanit::inproc(a),
+        "sanit-sim" => sanit::sim(a),
+        "sanit-free" => sanit::free(a),
         "c19" => c19::run(a),
         "c20" => c20::run(a),
         "c18" => c18::run(a),
@@ -72,4 +78,24 @@ pub fn guarded(r: &mut Report, case: serde_json::Value, f: impl FnOnce(&mut Repo
         let loc = root.1.replace("/repo/", "");
         r.violation(&format!("panic/{loc}"), &format!("panic during the scenario (thread {}): {}", root.0, root.2), case, serde_json::json!({"all_panics": panics.iter().map(|p| format!("{} @ {}: {}", p.0, p.1, p.2)).collect::<Vec<_>>() }));
     }
+}
+
+/// Write the structured corpus as seed files for the coverage-guided fuzzer.
+fn corpus_dump(a: &Args) -> Report {
+    let mut r = Report::new("corpus-dump");
+    let dir = a.extra.first().cloned().unwrap_or_else(|| "fuzz/corpus/decode".into());
+    let _ = std::fs::create_dir_all(&dir);
+    let mut rng = crate::rng::Rng::new(a.seed);
+    let temps = crate::corpus::templates(&mut rng, 2);
+    let mut n = 0;
+    for t in &temps {
+        let mut v = Vec::new();
+        crate::corpus::structured(t, &mut rng, &mut v);
+        for d in v.iter().step_by(7) {
+            let _ = std::fs::write(format!("{dir}/{:016x}", crate::rng::fnv(d)), d);
+            n += 1;
+        }
+    }
+    r.add("seed_files", n);
+    r
 }
